@@ -59,7 +59,7 @@ def cases(draw, tier="quick"):
                 vals[row * n + i] = "nan"
     lab = gen.draw_labels(
         draw, n, kinds=["int", "int", "float", "str", "u1"], max_groups=4, missing=(func != "nancumsum") or draw(st.integers(0, 9)) == 0,
-        styles=["random", "periodic", "runs", "blocks", "constant", "sorted"],
+        styles=["random", "periodic", "runs", "blocks", "constant", "sorted", "random", "periodic", "runs", "blocks", "distinct"],
     )  # fmt: skip
     return {
         "arr": {"dt": dt, "sh": batch + [n], "v": vals},
